@@ -13,7 +13,8 @@ BUILTINS = {'len', 'ord', 'chr', 'int', 'float', 'str', 'callable', 'isinstance'
             'set', 'sorted', 'reversed', 'filter', 'map', 'zip', 'any', 'all', 'repr', 'print',
             'IndexError', 'ValueError', 'TypeError', 'KeyError'}
 SPEC_FORMS = {'old', 'forall', 'exists', 'implies', 'holds', 'fresh', 'iff', 'ite', 'kind_is',
-              'same_str', 'allocated', 'unchanged', 'owned', 'chars_hold', 'numshape'}
+              'same_str', 'allocated', 'unchanged', 'owned', 'chars_hold', 'numshape',
+              'has', 'at', 'mget', 'forall_keys', 'same'}
 
 LIST_MUTATORS = {'append', 'pop', 'clear', 'insert', 'extend', 'sort', 'reverse', 'remove'}
 
@@ -123,6 +124,10 @@ class Exec(Engine):
                 return VFn(('spec', name))
         module = st.frame.module
         r = loader.resolve(module, name)
+        if r is not None and r[0] in ('const', 'constnode'):
+            g = self.global_object(st, module, name, r)
+            if g is not None:
+                return g
         if r is not None:
             return self.from_resolved(r, node)
         if name in BUILTINS:
@@ -135,6 +140,30 @@ class Exec(Engine):
         if name == 'True':
             return VBool(True)
         raise Unsupported('unbound name %r' % name, node)
+
+    def global_object(self, st, module, name, r):
+        "module-level tables declared with glob(): opaque global objects (never modified: frame obligations)"
+        # find the defining module of the name
+        m = module
+        for _ in range(8):
+            if name in m.consts or name in m.const_nodes:
+                break
+            imp = m.imports.get(name)
+            if imp is None or imp[0] != 'name':
+                return None
+            m = loader.load(imp[1])
+            name = imp[2]
+        key = '%s:%s' % (m.name, name)
+        T = REG.globs.get(key)
+        if T is None:
+            return None
+        T = parse_type(T)
+        t = z3.Int('G.' + key)
+        if T[0] == 'map':
+            return VMap(t)
+        if T[0] == 'any':
+            return VAny(t)
+        raise Unsupported('global %s of type %s' % (key, T))
 
     def from_resolved(self, r, node=None):
         if r[0] == 'func':
@@ -229,6 +258,8 @@ class Exec(Engine):
         return ('any',)
 
     def ev_Dict(self, node, st):
+        if getattr(node, '_pyvc_map', False) and not node.keys:
+            return [(st, self.new_map(st))]
         T = getattr(node, '_pyvc_rec', None)
         if T is None:
             raise Unsupported('dict literal without a declared record type (contract.locals)', node)
@@ -321,7 +352,9 @@ class Exec(Engine):
             return [(st, VFn(('listmethod', v, name)))]
         if isinstance(v, (VRec, VConst)):
             return [(st, VFn(('dictmethod', v, name)))]
-        if isinstance(v, VAny):
+        if isinstance(v, (VMap, VAny)):
+            if name in ('get', 'update', 'keys', 'values', 'items', 'copy', 'pop', 'setdefault'):
+                return [(st, VFn(('dictmethod', v, name)))]
             if st.spec:
                 return [(st, VAny())]
             raise Unsupported('attribute %r of an opaque value' % name, node)
@@ -387,9 +420,14 @@ class Exec(Engine):
         if isinstance(b, VNone):
             self.prove(st, FALSE, 'aorte', node, "TypeError: 'NoneType' object is not subscriptable: " + src)
             raise PathDead()
-        if isinstance(b, VAny) and st.spec:
-            return [(st, VAny())]
+        if isinstance(b, (VMap, VAny)):
+            m = self.as_map(st, b, node)
+            return self.umap(st, i, lambda s, k: self.map_index(s, m, k, node), node)
         raise Unsupported('subscript of %s' % b.kind, node)
+
+    def map_index(self, st, m, k, node):
+        self.prove(st, self.map_has(st, m, k), 'aorte', node, 'KeyError: ' + ast.unparse(node))
+        return [(st, self.map_at(st, m, k))]
 
     def rec_index(self, st, b, k, node):
         if isinstance(k, VStr) and k.lit is not None:
@@ -720,8 +758,10 @@ class Exec(Engine):
             if isinstance(x, VStr) and x.lit is not None:
                 return self.rec_present(st, cont, x.lit)
             raise Unsupported('`in` on a record with non-literal key', node)
-        if isinstance(cont, VAny):
-            return self.any_contains(cont, x)
+        if isinstance(cont, (VMap, VAny)):
+            # dict membership; for an opaque container: an uninterpreted, deterministic predicate of the key
+            m = self.as_map(st, cont, node)
+            return self.map_has(st, m, x)
         if isinstance(cont, VNone):
             if st.spec:
                 return FALSE
